@@ -87,6 +87,13 @@ func (r *Parser) Next(f *Field) bool {
 // Err returns the last read error. At the end of input
 // it will always be equal to io.EOF.
 func (r *Parser) Err() error {
+	if r.inputScanner != nil {
+		// A read error takes precedence: the field parser's ErrUnexpectedEOF
+		// only says that the data received before the failure ended mid-line.
+		if err := r.inputScanner.Err(); err != nil {
+			return err
+		}
+	}
 	if err := r.fieldScanner.Err(); err != nil {
 		return err
 	}
